@@ -73,8 +73,7 @@ class RPCError(OperationError):
             self._severity = 'warning'
             self._message = "\n".join(["%s: %s" %(err['severity'].strip(), err['message'].strip()) for err in errlist])
             self.errors = errs
-            has_error = filter(lambda higherr: higherr['severity'] == 'error', errlist)
-            if has_error:
+            if any(higherr['severity'] == 'error' for higherr in errlist):
                 self._severity = 'error'
             OperationError.__init__(self, self.message)
 
